@@ -430,6 +430,12 @@ func derivesOnlyFromParam(v ssa.Value, p *ssa.Parameter) bool {
 
 func propC12(c *Ctx) {
 	l := c.L
+	defer func() {
+		rpu := c.Rule("param-used", "every named parameter of an unexported, directly called function of the compile pipeline is used: the module store and module map handed down to a compiler are not dropped on the way (module indexes stay in step with the VM's module cache)", 40)
+		ruleParamUsed(c, rpu, func(p string) bool { return p == modPath })
+		rmk := c.Rule("map-key-agree", "every string-keyed map field of the package is accessed with keys of one form: a module stored under its name is looked up under that same name", 3)
+		ruleMapKeyAgree(c, rmk, func(p string) bool { return p == modPath })
+	}()
 	rm := c.Rule("mod-copy", "the module cache is written only by the dispatch loop's store-module arm (single writer), with the Copy() of every Copier value", 1)
 	vf := getVMFacts(c, rm)
 	if vf == nil {
@@ -835,6 +841,12 @@ func propC10(c *Ctx) {
 	ruleTryEndPop(c, rtp)
 	rcr := c.Rule("compile-rollback", "a fragment that fails to compile leaves the session's module store consistent with its constants (rolled back), so the next fragment compiles", 1)
 	ruleCompileRollback(c, rcr, run, compileCall)
+	rsow := c.Rule("set-owned", "every symbol table owns its set of disabled builtins (a builtin disabled in an earlier fragment stays disabled: the session's set is not shared with the optimizer's scratch table, which is reset)", 2)
+	if _, fD := l.structField(modPath, "SymbolTable", "disabledBuiltins"); c.Anchor(rsow, "SymbolTable.disabledBuiltins", fD >= 0) {
+		ruleSetOwned(c, rsow, &symtabRoles{l: l, fDisabled: fD})
+	}
+	rpu := c.Rule("param-used", "every named parameter of an unexported, directly called function of the compile / eval pipeline is used: state handed down (the session's module store) is not dropped on the way", 40)
+	ruleParamUsed(c, rpu, func(p string) bool { return p == modPath })
 	rsa := c.Rule("save-all-paths", "after the VM run every path of Eval.Run to a return stores r.Locals and r.ModulesCache (also for a failing fragment)", 2)
 	ruleEvalSaveAllPaths(c, rsa, run, vmRunCall)
 	rso := c.Rule("save-only-if-ran", "a run that the session refuses to start (context already done) does not read the locals back from the untouched VM: the session's variables survive a cancelled request", 1)
